@@ -80,6 +80,8 @@
 //   - `a, b := x, y` with new variables (also as the init statement of a for loop); unary minus of a constant
 //     in a return; named bool types (config types: -1); seams on a VALUE field (config "value": no nil check),
 //     e.g. a sync.Spinlock whose Acquire / Release become events;
+//   - config "visitors" (ext_visitor.go): a statement Visit(func(item *T) bool {..}) for a listed visitor function is a loop
+//     (gvisit, Lib/GoVisit.v) over an extra parameter holding the sequence of items; return true / false = continue / stop;
 // A field assignment r.f = e is `set_f_<T>_<f> r e` (one setter per field, generated after the Record).
 // A variable declared with := that shadows a variable of an enclosing scope is renamed apart (in the rest of its
 // statement list; for `if x := e; cond` in that statement); var declarations and range variables must not shadow.
@@ -126,6 +128,12 @@ type config struct {
 	ExtStructs map[string]extStruct `json:"extstructs"` // struct types of other packages (e.g. color.RGBA) given by their integer fields
 	FieldTypes map[string]string    `json:"fieldtypes"` // "Struct.field" -> struct type name: the field is a slice of that struct (overrides the declared type, e.g. a color.Palette of RGBA entries, all set)
 	Join    bool                  `json:"join"`    // an if statement whose branches only assign locals is `let vars := if c then .. else .. in rest` (no duplication of rest)
+	Fmtx    *fmtxCfg              `json:"fmtx"`    // ext_fmt.go: interface{} values, type switches, / and %, strings, labels, world byte buffers (kfmt/fmt.go)
+	// ext_c13trans.go (pool pointer mode): *T as a position in the receiver's slice []*T; opaque payload fields; oracle functions; external table columns
+	PoolPtr   map[string]string   `json:"poolptr"`
+	Payload   map[string][]string `json:"payload"`
+	OracleFns map[string]oracleFn `json:"oraclefns"`
+	ExtTables map[string]string   `json:"exttables"`
 }
 
 // seamSpec describes calls that leave the translated code through an interface value: t.<Field>.M(args) (or
@@ -203,6 +211,11 @@ func coqName(pkg, recv, name string) string {
 func v(name string) string { return "v_" + name }
 
 func typeOf(e ast.Expr, pkg string) tinfo {
+	if cfg.Fmtx != nil {
+		if ti, ok := fmtxTypeOf(e); ok {
+			return ti
+		}
+	}
 	switch t := e.(type) {
 	case *ast.Ident:
 		switch t.Name {
@@ -243,6 +256,9 @@ func typeOf(e ast.Expr, pkg string) tinfo {
 	case *ast.ParenExpr:
 		return typeOf(t.X, pkg)
 	case *ast.StarExpr:
+		if ti, ok := poolPtrTypeOf(t); ok { // ext_c13trans.go (config "poolptr")
+			return ti
+		}
 		if sel, ok := t.X.(*ast.SelectorExpr); ok && sel.Sel.Name == "Error" {
 			return tinfo{width: -2}
 		}
@@ -302,6 +318,7 @@ type translator struct {
 	extUsed    map[string]int    // coq name -> width: variables of other packages read, become parameters
 	ptrParams  map[string]bool   // parameters of pointer type
 	inoutTy    map[string]tinfo
+	poolBypass bool // ext_c13trans.go: the next expr call skips the pool-pointer hook (one shot)
 }
 
 // ctx: where break / continue / return lead at the current point of the translation
@@ -338,6 +355,14 @@ func matchOpt(opt, x string) string {
 }
 
 func coqTy(ti tinfo) string {
+	if cfg.PoolPtr != nil { // ext_c13trans.go
+		if s, ok := poolCoqTy(ti); ok {
+			return s
+		}
+	}
+	if s, ok := fmtxCoqTy(ti); ok && cfg.Fmtx != nil {
+		return s
+	}
 	switch {
 	case ti.width >= 0:
 		return "N"
@@ -459,6 +484,8 @@ func (tr *translator) seamArgs(call *ast.CallExpr, en *env) []string {
 				as = "(GBytes " + as + ")"
 			} else if at.width >= 0 {
 				as = "(GNum " + as + ")"
+			} else if at.width == -6 && cfg.Fmtx != nil {
+				as = "(GNum (gref " + as + "))"
 			} else {
 				fail("%s: unsupported argument type in a call through the seam", tr.fn.Name)
 			}
@@ -593,6 +620,11 @@ func (tr *translator) wrapPre(pre []string, body string) string {
 
 // field access on the struct receiver: returns (field, ok)
 func (tr *translator) recvField(e ast.Expr) (sfield, bool) {
+	if cfg.Fmtx != nil {
+		if f, ok := tr.fmtxField(e); ok {
+			return f, true
+		}
+	}
 	sel, ok := e.(*ast.SelectorExpr)
 	if !ok || tr.mon == "" {
 		return sfield{}, false
@@ -634,6 +666,16 @@ func (tr *translator) wrap(w int, s string) string {
 
 // expr returns the Gallina term and the type
 func (tr *translator) expr(e ast.Expr, en *env) (string, tinfo) {
+	if memOn() { // ext_mem.go
+		if s, ti, ok := tr.memExpr(e, en); ok {
+			return s, ti
+		}
+	}
+	if cfg.PoolPtr != nil { // ext_c13trans.go
+		if s, ti, ok := tr.poolExpr(e, en); ok {
+			return s, ti
+		}
+	}
 	switch t := e.(type) {
 	case *ast.ParenExpr:
 		return tr.expr(t.X, en)
@@ -661,6 +703,11 @@ func (tr *translator) expr(e ast.Expr, en *env) (string, tinfo) {
 		}
 		if ti, ok := en.vars[t.Name]; ok {
 			return v(t.Name), ti
+		}
+		if cfg.Fmtx != nil {
+			if f, ok := tr.fmtxField(t); ok {
+				return "(" + fieldName(tr.mon, f.name) + " " + v(tr.ptrRecv) + ")", tinfo{width: f.width, array: f.array}
+			}
 		}
 		if w, ok := tr.seamUsed[t.Name]; ok && strings.HasPrefix(t.Name, "s_") {
 			return t.Name, tinfo{width: w}
@@ -711,6 +758,20 @@ func (tr *translator) expr(e ast.Expr, en *env) (string, tinfo) {
 	case *ast.IndexExpr:
 		if tr.mon != "" {
 			xs, xt := tr.expr(t.X, en)
+			if xt.width == -12 && cfg.Fmtx != nil {
+				// an element of the variadic args ...interface{}
+				if tr.noHoist > 0 {
+					fail("%s: index expression under && or ||", tr.fn.Name)
+				}
+				is, it := tr.expr(t.Index, en)
+				tmp := tr.tmp()
+				if it.signed {
+					tr.pre = append(tr.pre, matchOpt(fmt.Sprintf("gidxsA %d %s %s", it.width, xs, is), tmp))
+				} else {
+					tr.pre = append(tr.pre, matchOpt(fmt.Sprintf("gidxA %s %s", xs, is), tmp))
+				}
+				return tmp, tinfo{width: -11}
+			}
 			if xt.width == -4 {
 				if tr.noHoist > 0 {
 					fail("%s: index expression under && or ||", tr.fn.Name)
@@ -792,6 +853,11 @@ func (tr *translator) expr(e ast.Expr, en *env) (string, tinfo) {
 			}
 		}
 	case *ast.TypeAssertExpr:
+		if cfg.Fmtx != nil && t.Type != nil {
+			if xs, xt, ok := tr.fmtxAssert(t, en); ok {
+				return xs, xt
+			}
+		}
 		// x.(T) for an element of a slice declared (config "fieldtypes") to hold values of struct type T only
 		if cfg.Gres && t.Type != nil {
 			xs, xt := tr.expr(t.X, en)
@@ -946,8 +1012,23 @@ func (tr *translator) expr(e ast.Expr, en *env) (string, tinfo) {
 			return "(" + xs + " && " + ys + ")", tinfo{width: -1}
 		case token.LOR:
 			return "(" + xs + " || " + ys + ")", tinfo{width: -1}
+		case token.QUO, token.REM:
+			if cfg.Fmtx != nil {
+				return tr.fmtxDivMod(t.Op, xs, ys, xt, yt)
+			}
 		}
 	case *ast.CallExpr:
+		if cfg.Fmtx != nil {
+			// len(args) of the variadic parameter; F(args) for another world function
+			if id, ok := t.Fun.(*ast.Ident); ok && id.Name == "len" && len(t.Args) == 1 {
+				if aid, isId := t.Args[0].(*ast.Ident); isId && en.vars[aid.Name].width == -12 {
+					return "(glenA " + v(aid.Name) + ")", tinfo{width: 64, signed: true}
+				}
+			}
+			if tr.fmtxWorldCall(t, en) {
+				return "tt", tinfo{width: -3}
+			}
+		}
 		// len(x) of a []byte field
 		if id, ok := t.Fun.(*ast.Ident); ok && id.Name == "len" && len(t.Args) == 1 && tr.mon != "" && cfg.Gres {
 			if f, isF := tr.recvField(t.Args[0]); isF && f.width == -10 {
@@ -1027,6 +1108,8 @@ func (tr *translator) expr(e ast.Expr, en *env) (string, tinfo) {
 							tr.extUsed[xp.name] = xp.width
 						case "oracle":
 							tr.oracleUsed[xp.name] = xp.ty
+						case "visitor": // ext_visitor.go
+							tr.visitorUse(xp)
 						}
 					}
 					if cfg.Gres {
@@ -1052,7 +1135,13 @@ func (tr *translator) expr(e ast.Expr, en *env) (string, tinfo) {
 		if len(t.Args) == 1 {
 			ti := typeOf(t.Fun, tr.pkg)
 			if ti.width > 0 {
-				x, _ := tr.expr(t.Args[0], en)
+				x, xt0 := tr.expr(t.Args[0], en)
+				if cfg.Fmtx != nil && xt0.signed && xt0.width > 0 && xt0.width < ti.width {
+					if !ti.signed {
+						fail("%s: conversion of a signed integer to a wider unsigned type", tr.fn.Name)
+					}
+					return fmt.Sprintf("(gsext %d %d %s)", xt0.width, ti.width, x), ti // sign extension
+				}
 				if strings.Contains(x, "UNTYPED_NOT") {
 					x = strings.ReplaceAll(x, "(UNTYPED_NOT ", fmt.Sprintf("(gnot %d ", ti.width))
 				}
@@ -1193,8 +1282,21 @@ func (tr *translator) block(stmts []ast.Stmt, en *env, k func(en *env) string) s
 		return k(en)
 	}
 	rest := func(en2 *env) string { return tr.block(stmts[1:], en2, k) }
+	if memOn() { // ext_mem.go
+		if out, ok := tr.memStmt(stmts, en, k, rest); ok {
+			return out
+		}
+	}
+	if cfg.PoolPtr != nil { // ext_c13trans.go
+		if out, ok := tr.poolStmt(stmts, en, k); ok {
+			return out
+		}
+	}
 	switch s := stmts[0].(type) {
 	case *ast.ReturnStmt:
+		if out, ok := tr.closureReturn(s, en); ok { // ext_visitor.go: return inside a visitor closure (config "visitors")
+			return out
+		}
 		var vals []string
 		for i, r := range s.Results {
 			x, ti := tr.expr(r, en)
@@ -1217,6 +1319,18 @@ func (tr *translator) block(stmts []ast.Stmt, en *env, k func(en *env) string) s
 		}
 		return tr.wrapPre(pre, tr.ret(vals, en))
 	case *ast.AssignStmt:
+		if cfg.Fmtx != nil && (s.Tok == token.QUO_ASSIGN || s.Tok == token.REM_ASSIGN) && len(s.Lhs) == 1 && len(s.Rhs) == 1 {
+			// x /= y is x = x / y (x a plain variable: evaluated once either way)
+			if _, plain := s.Lhs[0].(*ast.Ident); !plain {
+				fail("%s: /= on something that is not a variable", tr.fn.Name)
+			}
+			op := token.QUO
+			if s.Tok == token.REM_ASSIGN {
+				op = token.REM
+			}
+			s2 := &ast.AssignStmt{Lhs: s.Lhs, Tok: token.ASSIGN, Rhs: []ast.Expr{&ast.BinaryExpr{X: s.Lhs[0], Op: op, Y: s.Rhs[0]}}}
+			return tr.block(append([]ast.Stmt{s2}, stmts[1:]...), en, k)
+		}
 		if len(s.Lhs) == len(s.Rhs) && len(s.Lhs) > 1 && s.Tok == token.ASSIGN {
 			// parallel assignment: evaluate every right-hand side first, then assign left to right
 			var seq []ast.Stmt
@@ -1474,6 +1588,9 @@ func (tr *translator) block(stmts []ast.Stmt, en *env, k func(en *env) string) s
 			fail("%s: expression statement", tr.fn.Name)
 		}
 		if cfg.Gres {
+			if out, ok := tr.visitorStmt(s.X, en, rest); ok { // ext_visitor.go: Visit(func(item) bool {..}) (config "visitors")
+				return out
+			}
 			// panic(x): an explicit run-time panic
 			if c, ok := s.X.(*ast.CallExpr); ok && exprText(c.Fun) == "panic" && len(c.Args) == 1 {
 				return "GPanic"
@@ -1719,7 +1836,18 @@ func (tr *translator) block(stmts []ast.Stmt, en *env, k func(en *env) string) s
 		return tr.block(append(append([]ast.Stmt{}, s.List...), stmts[1:]...), en, k)
 	case *ast.EmptyStmt:
 		return rest(en)
+	case *ast.TypeSwitchStmt:
+		if cfg.Fmtx != nil && cfg.Gres && tr.mon != "" {
+			return tr.fmtxTypeSwitch(s, en, rest)
+		}
+	case *ast.LabeledStmt:
+		if cfg.Fmtx != nil && cfg.Gres && tr.mon != "" {
+			return tr.fmtxLabeled(s, stmts, en, k)
+		}
 	case *ast.BranchStmt:
+		if cfg.Fmtx != nil && cfg.Gres && s.Label != nil {
+			return tr.fmtxBranch(s, en)
+		}
 		if cfg.Gres && s.Label == nil {
 			if s.Tok == token.BREAK && tr.cx.brk != nil {
 				return tr.cx.brk(en)
@@ -1960,6 +2088,10 @@ func needsHoist(e ast.Expr) bool {
 		switch c := n.(type) {
 		case *ast.IndexExpr, *ast.SliceExpr:
 			found = true
+		case *ast.SelectorExpr:
+			if cfg.PoolPtr != nil { // ext_c13trans.go: x.f may be a read through a pointer (a possible nil dereference)
+				found = true
+			}
 		case *ast.CallExpr:
 			if id, ok := c.Fun.(*ast.Ident); !ok || (id.Name != "len") {
 				if _, isSel := c.Fun.(*ast.SelectorExpr); isSel {
@@ -1994,6 +2126,10 @@ func letPat(pat string) string {
 func (tr *translator) emitLoop(pat, ty, step string, rest func() string) string {
 	tr.usesFuel = true
 	out := "match gloop (R := " + tr.resultTy(nil) + ") fuel (fun st : " + ty + " => " + letPat(pat) + "\n  " + step + ") " + pat + " with\n"
+	if cfg.Fmtx != nil && strings.HasPrefix(step, "\x01") {
+		// the step function is an auxiliary top-level definition (ext_fmt.go)
+		out = "match gloop (R := " + tr.resultTy(nil) + ") fuel " + step[1:] + " " + pat + " with\n"
+	}
 	out += "  | GPanic => GPanic | GFuel => GFuel\n"
 	out += "  | GOk (inr r) => " + tr.retWrap("r") + "\n"
 	out += "  | GOk (inl st) => " + letPat(pat) + "\n  " + rest() + "\n  end"
@@ -2012,6 +2148,9 @@ func (tr *translator) forLoop(s *ast.ForStmt, en *env, rest func(*env) string) s
 	if s.Post != nil {
 		cont = func(*env) string { return tr.block([]ast.Stmt{s.Post}, en, next) }
 	}
+	if cfg.Fmtx != nil {
+		defer tr.fmtxLoopTargets(s, brk, cont)() // a labelled loop: break L / continue L
+	}
 	step := tr.withCtx(ctx{brk: brk, cont: cont, loopDepth: tr.cx.loopDepth + 1}, func() string {
 		c := "true"
 		var pre []string
@@ -2022,6 +2161,9 @@ func (tr *translator) forLoop(s *ast.ForStmt, en *env, rest func(*env) string) s
 		body := tr.block(s.Body.List, en, cont)
 		return tr.wrapPre(pre, "if "+c+"\n  then ("+body+")\n  else ("+brk(en)+")")
 	})
+	if cfg.Fmtx != nil {
+		step = tr.fmtxAuxLoop(en, names, pat, ty, step)
+	}
 	return tr.emitLoop(pat, ty, step, func() string { return restC(en) })
 }
 
@@ -2238,6 +2380,7 @@ func main() {
 	if err := json.Unmarshal(data, &cfg); err != nil {
 		fail("%v", err)
 	}
+	memLoadConfig(data) // ext_mem.go
 	fset := token.NewFileSet()
 	files := map[string]*ast.File{}
 	funcs := map[string]fnSpec{}
@@ -2263,12 +2406,17 @@ func main() {
 			imports[imp] = true
 		}
 	}
+	memPrintRequire() // ext_mem.go
 	fmt.Println("Local Open Scope N_scope.")
 	fmt.Println("Local Open Scope bool_scope.")
 	if cfg.Gres {
 		fmt.Println("Local Open Scope list_scope.")
 	}
 	fmt.Println()
+	if len(cfg.Payload) > 0 { // ext_c13trans.go: payload fields are `option V` for a type variable V of the whole file
+		fmt.Println("Section Payload.\nContext {V : Type}.\n")
+		defer fmt.Println("End Payload.")
+	}
 	var snames []string
 	for st := range cfg.Structs {
 		snames = append(snames, st)
@@ -2325,6 +2473,9 @@ func main() {
 						sf.width = ti.width
 						sf.signed = ti.signed
 					}
+					if cfg.PoolPtr != nil { // ext_c13trans.go: []*T is the pool of T's records
+						poolStructField(st, fl, file.Name.Name, &sf)
+					}
 					for _, n := range fl.Names {
 						skip := false
 						for _, ig := range cfg.Ignore[st] {
@@ -2350,6 +2501,9 @@ func main() {
 								w = -6
 							}
 						}
+						if cfg.PoolPtr != nil { // ext_c13trans.go: config "payload"
+							w = poolFieldWidth(st, n.Name, w)
+						}
 						if w == 0 {
 							fail("struct %s: unsupported type of field %s", st, n.Name)
 						}
@@ -2370,6 +2524,7 @@ func main() {
 			if _, done := structPkg["world"]; !done {
 				structPkg["world"] = f.Pkg
 				structFields["world"] = []sfield{{name: "trace", width: -7}}
+				structFields["world"] = append(structFields["world"], memWorldFields()...) // ext_mem.go
 				if cfg.Seams == nil {
 					cfg.Seams = map[string]seamSpec{}
 				}
@@ -2379,6 +2534,9 @@ func main() {
 				}
 				cfg.Structs["world"] = "(synthetic: the trace of the calls through " + f.Pkg + "'s function variables)"
 				snames = append(snames, "world")
+				if cfg.Fmtx != nil {
+					fmtxWorldFields() // package-level byte buffers next to the trace
+				}
 			}
 		}
 	}
@@ -2429,12 +2587,16 @@ func main() {
 			if f.width == -8 {
 				ty = "list " + recName(structPkg[f.named], f.named)
 			}
+			if s, ok := poolCoqTy(tinfo{width: f.width}); ok && cfg.PoolPtr != nil { // ext_c13trans.go
+				ty = s
+			}
 			if f.width == -7 {
 				ty = "list gevent"
 				if cfg.Seams[st].Typed {
 					ty = "list gcall"
 				}
 			}
+			ty = memFieldType(f, ty) // ext_mem.go
 			fds = append(fds, fieldName(st, f.name)+" : "+ty)
 		}
 		fmt.Printf("(* %s : type %s *)\n", cfg.Structs[st], st)
@@ -2455,6 +2617,7 @@ func main() {
 				fmt.Printf("Definition set_%s (r : %s) (x : %s) : %s := mk_%s %s.\n", fieldName(st, f.name), rn, ty, rn, rn, strings.Join(parts, " "))
 			}
 			fmt.Println()
+			memPrintHelpers(st, rn) // ext_mem.go
 		}
 	}
 	for _, spec := range cfg.Funcs {
@@ -2498,7 +2661,7 @@ func main() {
 			tr.ptrRecv = "world"
 			params = append(params, "("+v("world")+" : "+recName(structPkg["world"], "world")+")")
 		}
-		if decl.Recv != nil {
+		if decl.Recv != nil && !memRecv(tr, decl, en, &params) { // ext_mem.go: a "world" function with a receiver
 			r := decl.Recv.List[0]
 			ti := typeOf(r.Type, spec.Pkg)
 			name := "recv"
@@ -2524,6 +2687,9 @@ func main() {
 			}
 		}
 		for _, p := range decl.Type.Params.List {
+			if memParam(tr, p, en, &params) { // ext_mem.go: function-typed (seam) and pointer-into-memory parameters
+				continue
+			}
 			ti := typeOf(p.Type, spec.Pkg)
 			if cfg.Gres && tr.mon != "" {
 				if at, ok := p.Type.(*ast.ArrayType); ok && at.Len == nil && typeOf(at.Elt, spec.Pkg).width == 8 {
@@ -2662,6 +2828,7 @@ func main() {
 			params = append(params, "("+ov+" : "+tr.oracleUsed[ov]+")")
 			extras = append(extras, extraParam{name: ov, kind: "oracle", ty: tr.oracleUsed[ov]})
 		}
+		params, extras = tr.visitorParams(params, extras) // ext_visitor.go: the item sequences of visitor calls (config "visitors")
 		monExtra[name] = extras
 		if len(tr.results) == 1 && len(tr.globals) == 0 && tr.ptrRecv == "" {
 			resultTypes[name] = tr.results[0]
@@ -2670,6 +2837,9 @@ func main() {
 		}
 		if tr.ptrRecv != "" && tr.mon == "" && len(tr.results) == 0 && len(tr.globals) == 0 {
 			resultTypes[name] = en.vars[tr.ptrRecv]
+		}
+		if cfg.Fmtx != nil {
+			fmtxFlushAux() // loop bodies and join points of this function, as definitions of their own
 		}
 		fmt.Printf("(* %s : %s %s *)\n", spec.File, spec.Recv, spec.Name)
 		fmt.Printf("Definition %s %s :=\n  %s.\n\n", name, strings.Join(append(gparams, params...), " "), body)
